@@ -43,3 +43,17 @@ with tempfile.TemporaryDirectory() as d:
     r = p.map({"x": [1, 2, 3], "q": big}, run_folder=d, parallel=False, cleanup=False)
     assert r["y"].output.tolist() == [3, 4, 5]
 print("F03/F33 ok")
+
+# F33b: every name of a per-output storage dict is validated up front (any() used to stop at the first hit)
+with tempfile.TemporaryDirectory() as d:
+    p = Pipeline([f])
+    p.map({"x": [1, 2, 3]}, run_folder=d, parallel=False)
+    before = snap(d)
+    try:
+        p.map({"x": [1, 2, 3]}, run_folder=d, parallel=False, cleanup=False, storage={"": "file_array", "y": "bogus"})
+    except ValueError as e:
+        assert "bogus" in str(e)
+    else:
+        raise AssertionError("expected rejection")
+    assert snap(d) == before, "unknown per-output storage request modified the run folder"
+print("F33b ok")
